@@ -29,6 +29,9 @@ EXTENDS Integers, Sequences, FiniteSets, TLC
 CONSTANTS N,         \* at most N non-genesis blocks (ids 1..N; genesis = 0; parent[b] < b)
           MaxWork,   \* work (difficulty) of a block is in 1..MaxWork
           MaxDup,    \* total number of duplicate deliveries
+          Heavy,     \* 0: any tree. W > 0: directed family "one heavy block against a light chain": block 1 has work W
+                     \*    and is valid, blocks 2, 3, .. form a chain of work-1 blocks from genesis with any verdicts
+                     \*    (the chain overtakes only when it is W+1 long, i.e. W blocks taller than the tip)
           PreFix,    \* TRUE: verify_block as coded before fix 9663883 (no check of the block's own INVALID status) - oracle self-test
           Verdicts   \* verdicts a minted block may have: subset of {"ok", "bad_nc", "bad_ctx"}
                      \*   ok       the block meets every rule in the context of its ancestors
@@ -69,6 +72,8 @@ Init == /\ parent = [b \in Blocks |-> 0] /\ work = [b \in Blocks |-> 1] /\ ok = 
 (* scenario and environment *)
 Mint(p, w, v) ==
   /\ ~sealed /\ minted < N /\ p \in 0..minted
+  /\ Heavy > 0 => IF minted = 0 THEN p = 0 /\ w = Heavy /\ v = "ok"
+                  ELSE p = (IF minted = 1 THEN 0 ELSE minted) /\ w = 1
   /\ parent' = [parent EXCEPT ![minted + 1] = p] /\ work' = [work EXCEPT ![minted + 1] = w]
   /\ ok' = [ok EXCEPT ![minted + 1] = v] /\ minted' = minted + 1
   /\ UNCHANGED <<sealed, order, rcvd, stored, ext, index, tip, status, orphans, pending, preQ, verQ, svc, vfy, replies, lost>>
@@ -210,7 +215,7 @@ VerifyDone ==
   /\ vfy' = Idle
   /\ UNCHANGED <<scen, order, rcvd, dur, status, orphans, preQ, verQ, svc, lost>>
 
-Next == \/ \E p \in 0..N, w \in 1..MaxWork, v \in Verdicts : Mint(p, w, v)
+Next == \/ \E p \in 0..N, w \in 1..(IF Heavy > MaxWork THEN Heavy ELSE MaxWork), v \in Verdicts : Mint(p, w, v)
         \/ Seal
         \/ \E b \in All : Deliver(b)
         \/ Receive \/ Insert \/ Broker \/ (\E l \in All : ReleaseLeader(l))
